@@ -13,7 +13,7 @@ RULE = ('seeded sessions of 1-6 stream operations (shell, exec_out, streaming_sh
         '>= 1 multi-WRITE transfer in the run; distinct = event-log digests')
 ASSUMPTIONS = ['the device stalls until the OKAY it is owed arrives, as adbd does, so a missing OKAY becomes a timeout',
                'that list/stat/pull close their stream is C08/C09\'s statement; reboot() legitimately leaves its stream open']
-EXPECT_PROBES = {'all': ['open_refused', 'c04_abandoned_generator', 'c04_request_longer_than_maxdata', 'c04_nested_streams', 'c04_open_fills_maxdata', 'c04_multi_wrte_push', 'c04_ge_4_streams', 'empty_payload_wrte_acked', 'push_fail_sent', 'fail_before_okay', 'wrte_in_flight_at_host_close', 'recv_closed_mid_transfer', 'late_okay']}
+EXPECT_PROBES = {'all': ['wrte_with_zero_remote_id', 'open_refused', 'c04_abandoned_generator', 'c04_request_longer_than_maxdata', 'c04_nested_streams', 'c04_open_fills_maxdata', 'c04_multi_wrte_push', 'c04_ge_4_streams', 'empty_payload_wrte_acked', 'push_fail_sent', 'fail_before_okay', 'wrte_in_flight_at_host_close', 'recv_closed_mid_transfer', 'late_okay']}
 KINDS = ['shell', 'exec_out', 'streaming_shell', 'root', 'list', 'stat', 'pull', 'pull', 'push', 'push']
 OWN = ('protocol', 'wrong-result', 'unexpected-exception', 'timeout-instead-of-result', 'missing-exception', 'wrong-exception', 'hang', 'no-termination',
        'unacked-write', 'clse-count')
@@ -116,6 +116,8 @@ def generate(seed, tier):
         pad = d['maxdata'] - len((('shell:' if k != 'exec_out' else 'exec:')).encode()) - 1 - g.pick([0, 0, 1, 2, 17, -1, -40])     # the last two overshoot: the library does not limit destinations; the NUL clause holds there too
         name = S.add_cmd(g, d, 300, name='echo ' + 'x' * (pad - 5))
         scn['actors'][0].append({'op': k, 'cmd': name, 'decode': False})
+    if g.chance(0.06):
+        d['wrte_zero'] = True       # WRITEs arrive with remote id 0: every later host packet still carries the id announced in the OKAY
     if g.chance(0.1):
         # the device refuses exec: with CLSE(0, id): no OKAY, no remote id -- the host has nothing to say on that stream any more
         d['refuse'] = ['exec:']
